@@ -39,6 +39,9 @@ def op_fault_decode(a):
 
     def run():
         kind = a["kind"]
+        if a["w"] == 0:
+            from .probe import poison
+            poison("pdu" if kind == "pdu" else kind)
         if kind == "pdu":
             from spacepackets.cfdp.pdu.helper import PduFactory
             obj, _, _, _ = mk_pdu(a["pk"], a["cfg"], a["p"])
